@@ -333,6 +333,8 @@ func bindOpsAuth() []Action {
 		actBind("ab", "P1", "O2", 10, "p1", 1), // provider owned by O1, other service
 		actBind("ab", "P1", "O1", 10, "p1", 1),
 		actBind("a", "P2", "O2", 10, "p1", 1),
+		// a provider address that is no account address (21 bytes), bound by one owner and then by another to another service
+		actBind("a", "PL", "O1", 10, "p1", 1), actBind("ab", "PL", "O2", 10, "p1", 1),
 	}
 	for _, s := range []string{"O1", "O2", "XX"} {
 		ops = append(ops, actUpdate("a", "P1", s, 10, "", 0), actDisable("a", "P1", s), actEnable("a", "P1", s, 0), actRefund("a", "P1", s))
@@ -620,11 +622,13 @@ func scMsvcTwo(ps ParamSet, depth, blocks, msgs int) *Scenario {
 	sc := scMsvc(ps, depth, blocks, msgs)
 	sc.Name = "S-MSVC(two module services)"
 	sc.Rig.ModuleServices = append(sc.Rig.ModuleServices, ModuleSvcSpec{Module: "aamod", Service: "mt", Provider: MSP, Result: resultOK, Output: outputOK},
-		ModuleSvcSpec{Module: "zzmod", Service: "mu", Provider: MSP, Result: resultOK, Output: outputOK})
-	sc.Setup = append(sc.Setup, actDefine("mt", "AU"), actDefine("mu", "AU"))
+		ModuleSvcSpec{Module: "zzmod", Service: "mu", Provider: MSP, Result: resultOK, Output: outputOK},
+		// a second service under a module name that is taken, same provider (the unmodified keeper refuses the registration)
+		ModuleSvcSpec{Module: "msmod", Service: "mv", Provider: MSP, Result: resultOK, Output: outputOK, Optional: true})
+	sc.Setup = append(sc.Setup, actDefine("mt", "AU"), actDefine("mu", "AU"), actDefine("mv", "AU"))
 	sc.Templates = []Template{tMsvc}
 	sc.Alpha = lifeAlpha(AlphaOpts{RespKinds: []string{"ok"}, BindOps: []Action{
-		actBind("ms", "P1", "O1", 10, "p1", 1), actBind("mt", "P1", "O1", 10, "p1", 1), actBind("mu", "P2", "O2", 10, "p1", 1), actBind("a", "P1", "O1", 10, "p1", 1)}})
+		actBind("ms", "P1", "O1", 10, "p1", 1), actBind("mt", "P1", "O1", 10, "p1", 1), actBind("mu", "P2", "O2", 10, "p1", 1), actBind("mv", "P2", "O2", 10, "p1", 1), actBind("a", "P1", "O1", 10, "p1", 1)}})
 	return sc
 }
 
